@@ -29,17 +29,28 @@ def apply_unified_diff(root, patch_text):
         if not os.path.exists(full):
             return None
         lines = open(full, encoding='utf8').read().split('\n')
+        heads = re.findall(r'^@@ -(\d+)(?:,\d+)? \+(\d+)(?:,\d+)? @@.*$', blk, flags=re.M)
         hunks = re.split(r'^@@ .*?@@.*$', blk, flags=re.M)[1:]
-        for h in hunks:
+        shift = 0
+        for k, h in enumerate(hunks):
             hl = h.split('\n')[1:]
             if hl and hl[-1] == '':
                 hl = hl[:-1]
             old = [x[1:] for x in hl if x[:1] in (' ', '-')]
             new = [x[1:] for x in hl if x[:1] in (' ', '+')]
             pos = [i for i in range(len(lines) - len(old) + 1) if lines[i:i + len(old)] == old]
-            if len(pos) != 1:
+            if not pos:
                 return None
+            if len(pos) > 1:
+                # twin code (two classes with the same method body): take the occurrence nearest to the line the hunk names
+                if k >= len(heads):
+                    return None
+                want = int(heads[k][0]) - 1 + shift
+                pos.sort(key=lambda i: abs(i - want))
+                if len(pos) > 1 and abs(pos[0] - want) == abs(pos[1] - want):
+                    return None
             lines[pos[0]:pos[0] + len(old)] = new
+            shift += len(new) - len(old)
         overlay[rel] = '\n'.join(lines)
     return overlay
 
